@@ -144,7 +144,10 @@ type Ref struct {
 	// Groups: "objectPath|label" for every object visited whose selection contains fields
 	// reached through an (effective) @defer fragment - the deferred groups that start.
 	Groups []string
-	errAt  map[string]bool
+	// InvalidOwn: paths of objects that are null because one of their OWN non-deferred
+	// non-null fields failed (as opposed to being removed by propagation from elsewhere)
+	InvalidOwn map[string]bool
+	errAt      map[string]bool
 	// curField: "Type.field" of the resolver whose result is being completed
 	curField string
 	// DeferIgnored: @defer treated as plain (the undeferred reference run)
@@ -405,6 +408,12 @@ func (r *Ref) selectionSet(obj *ast.Definition, objPath string, sel ast.Selectio
 		v := r.field(obj, objPath, path, fd, g.fields)
 		if v.Kind == 'n' && fd.Type.NonNull {
 			invalid = true
+			if !g.deferred {
+				if r.InvalidOwn == nil {
+					r.InvalidOwn = map[string]bool{}
+				}
+				r.InvalidOwn[objPath] = true
+			}
 		}
 		out.Keys = append(out.Keys, g.key)
 		out.Vals = append(out.Vals, v)
@@ -496,7 +505,7 @@ func (r *Ref) field(obj *ast.Definition, objPath, path string, fd *ast.FieldDefi
 		r.Positions = append(r.Positions, Position{Path: path, Kind: "resolver", GQLType: fd.Type.String(), Nilable: r.Nilable(fd.Type), List: fd.Type.Elem != nil, Abstract: fd.Type.Elem == nil && r.isAbstract(fd.Type.NamedType), Object: obj.Name + "." + fd.Name})
 		outcome = r.Plan.Get(path)
 		switch outcome {
-		case "error":
+		case "error", "errval":
 			r.addErr(path, "resolver")
 			return r.nonNullCheck(fd.Type, path, Null)
 		case "panic":
